@@ -102,6 +102,8 @@ def merge_once(ctx, d, rng, variant):
     for k in range(K):
         ds, tsv, rec = make_probe(rng, k, shared, variant)
         sub = root / ('probe%d' % (9 + k))     # probe9, probe10, ...: the given order is not the name order
+        if variant % 4 == 1:
+            sub = sub / 'ks2'                  # .../probe9/ks2, .../probe10/ks2: the same folder NAME for every probe
         # all probes of one merge come from the same sorter: same dtypes (they vary between merges)
         D.write_dataset(sub, ds, tsv=tsv, time_dtype=[np.uint64, np.int64, np.int32, np.uint32][variant % 4],
                         id_dtype=[np.int32, np.uint32, np.int64][variant % 3],
